@@ -135,6 +135,11 @@ func families(c Case, table string) []family {
 		return []family{famUpdate}
 	case c.Op == "save_existing" && c.Shape == "ptr_struct":
 		return []family{famUpdate}
+	case c.Op == "save_missing":
+		// Save of a set key without a row: the property does not say which
+		// family applies, but one family, each hook once (gorm: the update
+		// hooks around the 0-row UPDATE, then a hook-less upsert)
+		return []family{famUpdate, famCreate}
 	}
 	return []family{famCreate, famUpdate}
 }
@@ -191,13 +196,11 @@ func judge(o *Obs) (fs []finding) {
 	var stmts []stmtEv
 	var markers []stmtEv
 	var begins, commits, rollbacks []int
-	beginConn := -1
 	rootInserts := 0
 	for _, ev := range o.Events {
 		switch ev.Kind {
 		case "begin":
 			begins = append(begins, ev.Seq)
-			beginConn = ev.Conn
 		case "commit":
 			commits = append(commits, ev.Seq)
 		case "rollback":
@@ -208,7 +211,7 @@ func judge(o *Obs) (fs []finding) {
 				continue
 			}
 			se := stmtEv{Seq: ev.Seq, Conn: ev.Conn, Verb: verb, Table: table, PTable: table}
-			if table == "audits" {
+			if isHookTable(table) {
 				markers = append(markers, se)
 				continue
 			}
@@ -315,25 +318,57 @@ func judge(o *Obs) (fs []finding) {
 			}
 		}
 	}
+	// transaction windows (BEGIN .. COMMIT/ROLLBACK on one connection)
+	type window struct{ lo, hi, conn int }
+	var windows []window
+	open := map[int]int{}
+	for _, ev := range o.Events {
+		switch ev.Kind {
+		case "begin":
+			open[ev.Conn] = ev.Seq
+		case "commit", "rollback":
+			if lo, ok := open[ev.Conn]; ok {
+				windows = append(windows, window{lo, ev.Seq, ev.Conn})
+				delete(open, ev.Conn)
+			}
+		}
+	}
+	// Save of a missing row is two pipelines (UPDATE, then upsert), each in
+	// its own default transaction; every other operation is one transaction
+	maxTx := 1
+	if c.Op == "save_missing" && c.Outer != "begin" {
+		maxTx = 2
+	}
+	hookOwnTx := !wantTx && c.Body != "" // hooks of a query outside a transaction: their writes open their own transactions
 	if wantTx {
 		switch {
-		case len(begins) != 1:
+		case len(begins) < 1 || len(begins) > maxTx:
 			add("operation did not run in exactly one transaction", "%d BEGINs", len(begins))
-		case len(commits)+len(rollbacks) != 1:
-			add("operation did not end its transaction exactly once", "%d commits, %d rollbacks", len(commits), len(rollbacks))
+		case len(commits)+len(rollbacks) != len(begins):
+			add("operation did not end its transaction exactly once", "%d begins, %d commits, %d rollbacks", len(begins), len(commits), len(rollbacks))
 		default:
-			end := append(append([]int{}, commits...), rollbacks...)[0]
 			for _, s := range append(append([]stmtEv{}, stmts...), markers...) {
-				if s.Seq < begins[0] || s.Seq > end || s.Conn != beginConn {
-					add("statement or hook write outside the operation's transaction", "#%d %s %s on conn %d (transaction: #%d..#%d on conn %d)", s.Seq, s.Verb, s.Table, s.Conn, begins[0], end, beginConn)
+				in := false
+				for _, w := range windows {
+					if s.Seq > w.lo && s.Seq < w.hi && s.Conn == w.conn {
+						in = true
+					}
+				}
+				if !in {
+					add("statement or hook write outside the operation's transaction", "#%d %s %s on conn %d (transactions: %v)", s.Seq, s.Verb, s.Table, s.Conn, windows)
 				}
 			}
 		}
-	} else if len(begins) != 0 {
+	} else if len(begins) != 0 && !hookOwnTx {
 		add("query opened a transaction", "%d BEGINs", len(begins))
 	}
-	if len(markers) != len(o.Log) {
-		add("number of hook writes in the driver log differs from the hook log", "%d vs %d", len(markers), len(o.Log))
+	wantMarkers, wantHits := 0, 0
+	for _, ev := range o.Log {
+		wantMarkers += ev.Stmts
+		wantHits += ev.Incr
+	}
+	if len(markers) != wantMarkers {
+		add("number of hook writes in the driver log differs from the hook log", "%d vs %d", len(markers), wantMarkers)
 	}
 
 	// ---- error
@@ -520,7 +555,7 @@ func judge(o *Obs) (fs []finding) {
 	if o.Err != nil {
 		return
 	}
-	if wantTx && c.Outer != "begin" && (len(commits) != 1 || len(rollbacks) != 0) {
+	if wantTx && c.Outer != "begin" && (len(commits) < 1 || len(commits) > maxTx || len(rollbacks) != 0) {
 		add("successful operation not committed", "%d commits, %d rollbacks", len(commits), len(rollbacks))
 	}
 	// audit rows = seed + one per hook invocation
@@ -538,6 +573,9 @@ func judge(o *Obs) (fs []finding) {
 	sort.Strings(gotAud)
 	if !eq(wantAud, gotAud) {
 		add("hook writes not stored with the successful operation", "want %v got %v", wantAud, gotAud)
+	}
+	if row := rowByID(o.Post, "stats", 1); row == nil || row["hits"] != fmt.Sprint(wantHits) {
+		add("hook writes not stored with the successful operation", "stats row %v, the hooks incremented hits %d times", row, wantHits)
 	}
 	mainEffect(o, recs, add)
 	// stored values = values set by the before-hooks
@@ -571,6 +609,9 @@ func judge(o *Obs) (fs []finding) {
 			if got := row[strings.ToLower(ev.SetCol)]; got != ev.SetVal {
 				add("stored value differs from the value set by the before-hook", "record %s (%s id=%d): %s set %s=%q, stored %q", ev.Ident, ev.Table, r.ID, ev.Hook, ev.SetCol, ev.SetVal, got)
 			}
+			if ev.SetVer != 0 && row["ver"] != fmt.Sprint(ev.SetVer) {
+				add("stored value differs from the value set by the before-hook", "record %s (%s id=%d): %s set Ver=%d (one increment), stored %s", ev.Ident, ev.Table, r.ID, ev.Hook, ev.SetVer, row["ver"])
+			}
 		}
 	}
 	return
@@ -584,7 +625,7 @@ func mainEffect(o *Obs, recs []record, add func(kind, format string, a ...interf
 		after[r.Ident] = r
 	}
 	switch {
-	case c.isCreate() || c.Op == "save_existing":
+	case c.isCreate() || c.Op == "save_existing" || c.Op == "save_missing":
 		if c.Graph != "" {
 			// every edge of the graph has its join row
 			var want, got []string
